@@ -84,6 +84,17 @@ func c01Check(ctx *vfCtx, c c01Case) {
 
 	var out []byte
 	var err error
+	// (texts that are refused, or odd, come first: the verdict on THIS text does not depend on them)
+	if len(text)%2 == 0 {
+		ctx.Class("after-other-texts")
+		if vfCatch(ctx, "C01/other-text", func() {
+			_, _ = CanonicalJSON([]byte(`{"left":"behind","n":[1.5,-0,1e999],}`))
+			_, _ = CanonicalJSON([]byte(`{"left":"behind","z":{"b":2,"a":1}}`))
+			_, _ = EnforcedCanonicalJSON([]byte(`{"left":1.5}`), "10")
+		}) {
+			return
+		}
+	}
 	given := append([]byte(nil), text...)
 	if vfCatch(ctx, "C01", func() { out, err = CanonicalJSON(given) }) {
 		return
